@@ -299,6 +299,9 @@ func init() {
 					mn := maxN
 					if p.Source == "enum" || isSystematic(p) {
 						mn = maxN - 1 // generated patterns are at most 3-4 atoms wide; the shape library gets the extra rune
+					} else if tier != "thorough" && !strings.HasPrefix(p.Source, "shape:findmode") && p.Source != "shape:landmark" && p.Source != "shape:bumpalong" &&
+						p.Source != "shape:prefix" && p.Source != "shape:lookaround-lead" && p.Source != "shape:autoatomic" {
+						mn = maxN - 1 // the extra rune only for the mechanisms whose literals / landmarks need the room
 					}
 					us = append(us, unitsFor("C03", "accel", p, cfg.o, cfg.co, mn, nil, false)...)
 				}
